@@ -26,7 +26,7 @@ from .convsites import D_CALLEES, S_CALLEES, conversion_sites
 from .relang import DFA
 from .report import Ctx
 from .srcmodel import AnalysisError, call_leaf, call_name, calls_in, const_str, contains, dotted, func_params, get_kwarg, src, walk_local
-from .util import guard_chain, root_name
+from .util import guard_chain, root_name  # noqa
 
 # languages written by PyYAML's SafeRepresenter (read from yaml/representer.py; the
 # guard below re-checks the source facts these regexes are derived from)
@@ -233,6 +233,31 @@ def run(ctx: Ctx) -> int:
                 ok = any(k.arg is None and "dump_kwargs.get()" in ast.unparse(k.value) for k in c.keywords)
                 ctx.oblige("C01.f", ok, c, "nested parser.dump uses the published dump options" if ok else "nested parser.dump ignores the caller's dump options", fn=fn)
     ctx.floor("C01.f-nested-dumps", n_nd, 2)
+
+    # ---------------- C01.g: skip_default removes an entry only if it equals the default ---------
+    dd = ctx.func("_core:ArgumentParser._dump_delete_default_entries")
+    n_del = 0
+    for s_ in walk_local(dd):
+        if isinstance(s_, ast.Delete):
+            n_del += 1
+            tgt = s_.targets[0]
+            gch = guard_chain(s_, stop=dd)
+            eq = [t for t, pol in gch if pol and any(isinstance(x, ast.Compare) and len(x.ops) == 1 and isinstance(x.ops[0], ast.Eq) for x in ast.walk(t))]
+            txt = " ".join(ast.unparse(t) for t in eq)
+            if root_name(tgt) == "subcfg":
+                ok = bool(eq) and "val == default" in txt
+                ctx.oblige("C01.g", ok, s_, "an entry is dropped by skip_default only when its value equals the default" if ok else "skip_default drops an entry without comparing it with the default: the dump no longer re-parses to the same configuration", fn=dd)
+            else:
+                ok = bool(eq) and "== {}" in txt
+                ctx.oblige("C01.g", ok, s_, "an emptied init_args entry is removed only when it is empty" if ok else "init_args removed from a class spec although not empty", fn=dd)
+    ctx.floor("C01.g", n_del, 2)
+    # the defaults compared against went through the same clean-up as the dumped configuration
+    dump_fn = ctx.func("_core:ArgumentParser.dump")
+    gdump = ctx.cfg(dump_fn)
+    cl_def = [c for c in calls_in(dump_fn) if call_leaf(c) == "_dump_cleanup_actions" and c.args and root_name(c.args[0]) == "defaults"]
+    dde = [c for c in calls_in(dump_fn) if call_leaf(c) == "_dump_delete_default_entries"]
+    ok = bool(cl_def) and bool(dde) and gdump.dominates(gdump.cn(cl_def), gdump.cn(dde))
+    ctx.oblige("C01.g", ok, dde[0] if dde else dump_fn, "defaults are serialised with the same per-action clean-up before they are compared" if ok else "skip_default compares serialised values with unserialised defaults", fn=dump_fn)
 
     # ---------------- C01.d ---------------------------------------------------
     pcall = ctx.func("_actions:_ActionPrintConfig.__call__")
